@@ -299,14 +299,17 @@ impl FileSpec {
         &self,
         infix: &str,
     ) -> Result<String, std::io::Error> {
-        let related_files = self.try_read_dir_related_files()?;
+        // The directory is listed twice, first for the plain files, then for the compressed ones:
+        // a cleanup thread that compresses a file meanwhile creates the compressed file before it
+        // removes the plain one, so the file is found by at least one of the two listings
+        // (a single listing can miss it in both forms).
         let uncompressed_files = self.filter_files(
-            &related_files,
+            &self.try_read_dir_related_files()?,
             &InfixFilter::Equls(infix.to_string()),
             self.o_suffix.as_deref(),
         );
         let compressed_files = self.filter_files(
-            &related_files,
+            &self.try_read_dir_related_files()?,
             &InfixFilter::Equls(infix.to_string()),
             Some("gz"),
         );
